@@ -252,6 +252,14 @@ def explore_c02(rng, tier, res, deep=False):
         ("$[?@.*]", [[], [0], {}, {"a": None}, 0]),
     ]
     cases.extend(fixed)
+    # STRING children whose text looks like JSON (an array, an object, a number, a keyword, a quoted string): a string is a
+    # scalar — selectors select nothing from it, a filter applied to it selects nothing, `@` denotes the string itself
+    jtexts = ["[1]", '{"a": 1}', '[{"b": 7}]', "[]", "{}", '"x"', "12", "null", "true", "[1, 2, 3]", '{"a": {"a": [1]}}', " [1]", "[1] ", "1e3", "-0", '["[1]"]']
+    for jt in jtexts:
+        jdoc = [jt, "x", json_like(jt), {"a": jt, "b": json_like(jt)}, [jt]]
+        for q in ("$[?@[0]]", "$[?@.a]", "$[?@.*]", "$[?!@.*]", f"$[?@ == {gen.quote_name(rng, jt, plain=True)}]", "$[?@[?@]]", "$[?count(@.*) > 0]", "$[?@.a[0]]", "$[?length(@) > 1]",
+                  "$[?@[?@.b == 7]]", "$..[?@[0]]", "$[?value(@[0]) == 1]", "$[?@.a.a]", "$[*][?@]", "$[?@..a]"):
+            cases.append((q, jdoc))
     # long arrays and objects (60..130 children) over a small pool of values that Python's == / hash() conflate but
     # RFC 9535 keeps apart (1, true, 1.0; 0, false, 0.0, -0.0) or that repeat many times: whatever an implementation
     # remembers per distinct child value, per position or per container size shows up here and not on short inputs
@@ -271,6 +279,16 @@ def explore_c02(rng, tier, res, deep=False):
     import spec_examples
 
     spec_examples.values_examples(res)
+
+
+def json_like(text):
+    """the value a JSON-looking string would decode to (used as a SIBLING of the string, never instead of it)"""
+    import json as _json
+
+    try:
+        return _json.loads(text)
+    except ValueError:
+        return text
 
 
 def root_under_descent(rng, tier, res):
@@ -813,6 +831,13 @@ def explore_c10(rng, tier, res, deep=False):
     callargs_check(rng, tier, res, docs, exprs + tests)
     literal_args_check(res)
     overlapping_calls(res)
+    # `$`-rooted (and `@`-rooted) function arguments of a compiled query that is applied again after the document was
+    # edited IN PLACE: what count/length/value and user functions receive is converted from what the query selects NOW
+    redocs = [{"tags": ["a", "b", "c"], "rows": [{"n": 2}, {"n": 3}, {"n": 4}], "name": "abcd", "only": [7], "flag": [1]},
+              {"tags": [], "rows": [{"n": 0}, {"n": 1}], "name": "", "only": [], "flag": []}]
+    reqs = ["$.rows[?count($.tags[*]) == @.n]", "$.rows[?length($.name) == @.n]", "$.rows[?value($.only[*]) == @.n]", "$.rows[?lf($.flag[*])]", "$.rows[?count($..n) > @.n]",
+            "$.rows[?vf(value($.only[0])) == @.n || length($.tags) == @.n]", "$.rows[?count(@.*) == count($.only[*])]", "$.rows[?length(value($.tags[0])) == @.n]", "$.rows[?lf(count($.tags.*) > @.n)]"]
+    reuse_after_edit(rng, res, PROBE_ENV, [(q, d) for q in reqs for d in redocs for _ in range(3)], "C10")
 
 
 def cross_env_stage(rng, res, cases):
